@@ -51,10 +51,12 @@ class V:
         self.contract = contract
         self.variant = variant
         self.env = {}
+        self.inputs = {}      # name -> ("int"|"real", z3 const) | ("vec", length term, z3 function, elem): for model -> concrete input
 
     # convenience constructors ------------------------------------------------------------------
     def int(self, name, lo=None, hi=None):
         x = z3.Int(name)
+        self.inputs[name] = ("int", x)
         if lo is not None:
             self.ctx.assume(x >= lo)
         if hi is not None:
@@ -63,6 +65,7 @@ class V:
 
     def real(self, name, positive=False):
         x = z3.Real(name)
+        self.inputs[name] = ("real", x)
         if positive:
             self.ctx.assume(x > 0)
         return x
@@ -79,6 +82,7 @@ class V:
             fn = lambda k: Num(f(zint(k)), is_int)
         v = Vec(length, fn, kind=kind, elem=elem)
         v.zfun = f
+        self.inputs[name] = ("vec", length, f, elem)
         if facts is not None:
             ff = lambda k: facts(f(zint(k)), zint(k))
             v.buf.facts = ff
@@ -186,6 +190,8 @@ def run_path(contract, func, loader, contracts_by_target, variant, prefix):
         contract.post(v, variant, v.env, outcome)
         if hasattr(contract, "mustfail") and outcome[0] == "return":
             contract.mustfail(v, variant, v.env, outcome)
+        for ob in ctx.obligations:
+            ob.meta.setdefault("inputs", v.inputs)
     except PathEnd:
         pr.status = "ended"
     except Infeasible:
@@ -251,6 +257,7 @@ def discharge(ob: Obligation, timeout_ms=None, try_cvc5=True):
         ob.result = "refuted"
         try:
             m = s.model()
+            ob.z3model = m
             ob.model = {str(d): str(m[d]) for d in m.decls()}
         except Exception:
             ob.model = {}
@@ -353,3 +360,32 @@ def check_sat(fs, timeout_ms=5000):
         fs = lib_py.string_axioms(fs) + list(fs)
     s.add(*fs)
     return str(s.check())
+
+
+def concretize(model, inputs, max_len=64):
+    """project a solver model onto the declared inputs of a contract: {name: number | list}.  Returns None when a length
+    is not a small concrete number (then no concrete input can be built from this model)."""
+    def num(e):
+        v = model.eval(e, model_completion=True)
+        if z3.is_int_value(v):
+            return v.as_long()
+        if z3.is_rational_value(v):
+            return v.numerator_as_long() / v.denominator_as_long()
+        if z3.is_algebraic_value(v):
+            return float(v.approx(20).as_fraction())
+        if z3.is_true(v):
+            return True
+        if z3.is_false(v):
+            return False
+        return None
+    out = {}
+    for name, ent in inputs.items():
+        if ent[0] in ("int", "real"):
+            out[name] = num(ent[1])
+        else:
+            _, length, f, elem = ent
+            L = num(zint(length))
+            if L is None or L < 0 or L > max_len:
+                return None
+            out[name] = [num(f(z3.IntVal(i))) for i in range(int(L))]
+    return out
